@@ -33,16 +33,19 @@ EXPLANATION = (
     "have the same number of blocks with pairwise equal sizes, and reshaping block k of the (re-chunked) input to the k-th output block shape and "
     "placing it at the k-th output block position reproduces NumPy's row-major reshape for EVERY element (checked on an index array). This part "
     "is bounded exhaustive enumeration: the kernel multiplies chunk sizes and takes float ceilings, so no arithmetic stays symbolic. Every "
-    "model is also run through x.reshape(...) (merge_chunks True/False) against NumPy.")
+    "model is also run through x.reshape(...) (merge_chunks True/False) against NumPy. (4) structural[...]: transpose, moveaxis (sequence "
+    "arguments in every order), swapaxes, squeeze/expand_dims, concatenate/stack/block, broadcast_to, flip/rot90, take, shuffle (called twice with "
+    "the same indexer, which must stay unmodified), repeat/tile, pad (5 modes), tril/triu, diff, roll against NumPy on solver-enumerated small "
+    "arrays and chunkings: witnesses only.")
 ASSUMPTIONS = [
     "int() inside expand_tuple is shimmed (ShimInt) so that int(x / factor) stays the exact truncated rational of symbolic x (int/int below 2**53: "
     "see the SRatio lemma in DESIGN.md); validated natively per path",
     "M.reshape on a NumPy block is NumPy's row-major reshape",
 ]
 STUBS = ["dask.array.reshape.int -> ShimInt"]
-ENUM = ["factor of contract_tuple / expand_tuple", "all inputs of reshape_rechunk (shape pair, chunking)"]
+ENUM = ["factor of contract_tuple / expand_tuple", "all inputs of reshape_rechunk (shape pair, chunking)", "shape and chunking of structural[...]"]
 OUTSIDE = ["transpose/moveaxis/swapaxes, squeeze/expand_dims, concatenate/stack/block, broadcast_to, flip/rot90, take/shuffle, repeat/tile, pad, tril/triu, "
-           "diff, roll: their index work is done by NumPy or by the slicing kernels decided under C20 (not re-claimed here)",
+           "diff, roll beyond the solver-enumerated witnesses of structural[...] (their index work is NumPy's or the slicing kernels' of C20: no symbolic claim)",
            "reshape_blockwise", "shapes outside the enumerated list, more than 3 chunks per axis"]
 BOUNDS = {
     "quick": dict(contract="<=3 chunks, sizes >= 0 unbounded, factor in {1,2,3,4}", expand="<=3 chunks, sizes in [1, 2**40], factor in {1,2,3}",
@@ -184,8 +187,89 @@ def mk_reshape(pairs, kmax, tag):
     return Obligation(f"reshape_rechunk[{tag}]", setup, run, e2e=e2e, e2e_every=6)
 
 
+STRUCT_SHAPES = ((4, 3), (2, 3, 4), (1, 5), (3, 1, 2), (3, 8))
+
+
+def mk_structural(kmax, tag):
+    """the other structural routines named by the property, through the public API against NumPy on solver-enumerated small arrays and
+    chunkings (their index work is NumPy's or the slicing kernels': witnesses, no symbolic claim). Arguments handed to dask must not
+    be modified, so every indexer is compared with a pristine copy afterwards and used twice."""
+    import copy as _copy
+    import itertools as _it
+
+    def setup(e):
+        shape = e.pick("shape", STRUCT_SHAPES)
+        chunks = tuple(e.pick(f"chunking{a}", compositions(d, kmax)) for a, d in enumerate(shape))
+        return shape, chunks
+
+    def run(e, shape, chunks):
+        x = (np.arange(int(np.prod(shape))).reshape(shape) * 7 + 3) % 23
+        d = da.from_array(x, chunks=chunks)
+        nd = x.ndim
+        cases = []
+
+        def case(tag_, got, want):
+            cases.append(tag_)
+            g = got.compute(scheduler="sync")
+            e.check(got.shape == want.shape and g.shape == want.shape and bool(np.array_equal(g, want)) and g.dtype == want.dtype,
+                    f"{tag_} on shape {shape} chunks {chunks} differs from NumPy")
+            e.check(tuple(sum(c) for c in got.chunks) == want.shape, f"{tag_}: lazy chunks {got.chunks} do not add up to {want.shape}")
+
+        for perm in _it.permutations(range(nd)):
+            case(f"transpose{perm}", d.transpose(perm), x.transpose(perm))
+        for src in _it.permutations(range(nd), 2):
+            for dst in _it.permutations(range(nd), 2):
+                case(f"moveaxis({src}, {dst})", da.moveaxis(d, src, dst), np.moveaxis(x, src, dst))
+        case("moveaxis(0, -1)", da.moveaxis(d, 0, -1), np.moveaxis(x, 0, -1))
+        case("swapaxes(0, -1)", da.swapaxes(d, 0, -1), np.swapaxes(x, 0, -1))
+        case("expand_dims(1)", da.expand_dims(d, 1), np.expand_dims(x, 1))
+        if 1 in shape:
+            case("squeeze", da.squeeze(d), np.squeeze(x))
+        y = x[::-1] + 100
+        dy = da.from_array(y, chunks=chunks)
+        for ax in range(nd):
+            case(f"concatenate(axis={ax})", da.concatenate([d, dy], axis=ax), np.concatenate([x, y], axis=ax))
+            case(f"stack(axis={ax})", da.stack([d, dy], axis=ax), np.stack([x, y], axis=ax))
+            case(f"flip({ax})", da.flip(d, ax), np.flip(x, ax))
+            case(f"roll(2, {ax})", da.roll(d, 2, ax), np.roll(x, 2, ax))
+            case(f"roll(-1, {ax})", da.roll(d, -1, ax), np.roll(x, -1, ax))
+            case(f"repeat(2, {ax})", da.repeat(d, 2, axis=ax), np.repeat(x, 2, axis=ax))
+            if x.shape[ax] > 1:
+                case(f"diff(axis={ax})", da.diff(d, axis=ax), np.diff(x, axis=ax))
+            idx = [x.shape[ax] - 1, 0, 0] if x.shape[ax] > 1 else [0, 0]
+            keep = list(idx)
+            case(f"take({idx}, {ax})", da.take(d, idx, axis=ax), np.take(x, keep, axis=ax))
+            e.check(idx == keep, "da.take modified its indexer")
+            n = x.shape[ax]
+            groups = [[i for i in range(n) if i % 2 == 0], [i for i in range(n) if i % 2 == 1][::-1]] + ([[0]] if n > 2 else [])
+            groups = [g_ for g_ in groups if g_]
+            if n >= 8:
+                # several small groups after two larger ones: dask merges groups into output chunks of about the mean chunk size
+                groups = [[0, 1, 2], [3, 4, 5], [6], [7]] + [[i] for i in range(8, n)]
+            pristine = _copy.deepcopy(groups)
+            flat = [i for g_ in pristine for i in g_]
+            for rep in range(2):
+                case(f"shuffle({pristine}, axis={ax}) call {rep + 1}", da.shuffle(d, groups, axis=ax), np.take(x, flat, axis=ax))
+                e.check(groups == pristine, f"da.shuffle modified the indexer it was given: {groups} (was {pristine})")
+        case("block", da.block([[d, dy], [dy, d]]) if nd == 2 else da.block([d, dy]), np.block([[x, y], [y, x]]) if nd == 2 else np.block([x, y]))
+        case("broadcast_to", da.broadcast_to(d, (2,) + shape), np.broadcast_to(x, (2,) + shape))
+        case("tile", da.tile(d, 2), np.tile(x, 2))
+        case("rot90", da.rot90(d, 1, axes=(0, nd - 1)), np.rot90(x, 1, axes=(0, nd - 1)))
+        if nd == 2:
+            for k in (-1, 0, 1):
+                case(f"tril({k})", da.tril(d, k), np.tril(x, k))
+                case(f"triu({k})", da.triu(d, k), np.triu(x, k))
+        for mode in ("constant", "edge", "reflect", "wrap", "symmetric"):
+            if mode in ("reflect",) and min(shape) < 2:
+                continue
+            case(f"pad({mode})", da.pad(d, 1, mode=mode), np.pad(x, 1, mode=mode))
+        return len(cases)
+
+    return Obligation(f"structural[{tag}]", setup, run)
+
+
 def obligations(tier):
     if tier == "quick":
-        return [mk_contract(n, (1, 2, 3, 4)) for n in (1, 2, 3)] + [mk_expand(n, (1, 2, 3)) for n in (1, 2, 3)] + [mk_reshape(PAIRS_Q, 2, "10 pairs,<=2 chunks/axis")]
+        return [mk_contract(n, (1, 2, 3, 4)) for n in (1, 2, 3)] + [mk_expand(n, (1, 2, 3)) for n in (1, 2, 3)] + [mk_reshape(PAIRS_Q, 2, "10 pairs,<=2 chunks/axis"), mk_structural(2, "5 shapes,<=2 chunks/axis")]
     return ([mk_contract(n, (1, 2, 3, 4, 5, 6)) for n in (1, 2, 3, 4)] + [mk_expand(n, (1, 2, 3, 4, 5)) for n in (1, 2, 3, 4)]
-            + [mk_reshape(PAIRS_T, 3, "24 pairs,<=3 chunks/axis")])
+            + [mk_reshape(PAIRS_T, 3, "24 pairs,<=3 chunks/axis"), mk_structural(3, "5 shapes,<=3 chunks/axis")])
